@@ -759,6 +759,18 @@ func c19redirect(w *c19world) {
 		c.Fail("C19: after RedirectStdLogAt output still reached the previous writer", "%q", prior.String())
 		return
 	}
+	// every write reaches the destination: also a blank one
+	// (log.Println() of a library, an empty message)
+	if lvl < zapcore.PanicLevel {
+		n0 := bytes.Count(sink.Data, []byte("\n"))
+		log.Println()
+		log.Print("")
+		log.Print("   ")
+		if n := bytes.Count(sink.Data, []byte("\n")) - n0; n != 3 {
+			c.Fail("C19: after a std-log redirection a write of the standard logger did not reach the zap logger", "3 blank messages were printed, %d entries arrived: %q", n, sink.Data)
+			return
+		}
+	}
 	restore()
 	if log.Flags() != flags || log.Prefix() != prefix {
 		c.Fail("C19: the restore function of RedirectStdLogAt did not restore flags and prefix", "flags %d -> %d, prefix %q -> %q", flags, log.Flags(), prefix, log.Prefix())
